@@ -93,6 +93,47 @@ type lockWalker struct {
 	methods map[string]map[string]*ast.FuncDecl   // type -> method -> decl
 	memo    map[string][]lockEv
 	busy    map[string]bool
+	// alts: the complete event lists of the paths of the method being walked that END EARLY (an
+	// if-branch whose last statement is a return / panic). Such a branch is an alternative to the
+	// rest of the method, not a prefix of it: its explicit Unlock must not be read as "released"
+	// by the statements after the if. Each alternative is emitted as a body of its own
+	// ("Type.Method#k") and checked like any method body.
+	alts    [][]lockEv
+	altMemo map[string][][]lockEv
+}
+
+// terminates: the block's last statement leaves the function.
+func terminates(b *ast.BlockStmt) bool {
+	if b == nil || len(b.List) == 0 {
+		return false
+	}
+	switch l := b.List[len(b.List)-1].(type) {
+	case *ast.ReturnStmt:
+		return true
+	case *ast.ExprStmt:
+		if c, ok := l.X.(*ast.CallExpr); ok {
+			if id, ok := c.Fun.(*ast.Ident); ok && id.Name == "panic" {
+				return true
+			}
+		}
+	}
+	return false
+}
+
+// walkBranch walks an if-branch; when it ends the function it becomes an alternative path
+// (prefix so far + branch + the defers registered so far, in reverse) and adds nothing to evs.
+func (w *lockWalker) walkBranch(b *ast.BlockStmt, evs, deferred *[]lockEv) {
+	if !terminates(b) {
+		w.walkStmt(b, evs, deferred)
+		return
+	}
+	path := append([]lockEv{}, (*evs)...)
+	dd := append([]lockEv{}, (*deferred)...)
+	w.walkStmt(b, &path, &dd)
+	for i := len(dd) - 1; i >= 0; i-- {
+		path = append(path, dd[i])
+	}
+	w.alts = append(w.alts, path)
 }
 
 func (w *lockWalker) eventsOf(ty, m string) []lockEv {
@@ -106,10 +147,17 @@ func (w *lockWalker) eventsOf(ty, m string) []lockEv {
 	w.busy[key] = true
 	fd := w.methods[ty][m]
 	var evs, deferred []lockEv
+	saved := w.alts
+	w.alts = nil
 	w.walkStmt(fd.Body, &evs, &deferred)
 	for i := len(deferred) - 1; i >= 0; i-- {
 		evs = append(evs, deferred[i])
 	}
+	if w.altMemo == nil {
+		w.altMemo = map[string][][]lockEv{}
+	}
+	w.altMemo[key] = w.alts
+	w.alts = saved
 	w.busy[key] = false
 	w.memo[key] = evs
 	return evs
@@ -170,8 +218,12 @@ func (w *lockWalker) walkStmt(n ast.Node, evs, deferred *[]lockEv) {
 	case *ast.IfStmt:
 		w.walkStmt(s.Init, evs, deferred)
 		w.walkExpr(s.Cond, false, evs)
-		w.walkStmt(s.Body, evs, deferred)
-		w.walkStmt(s.Else, evs, deferred)
+		w.walkBranch(s.Body, evs, deferred)
+		if eb, ok := s.Else.(*ast.BlockStmt); ok {
+			w.walkBranch(eb, evs, deferred)
+		} else {
+			w.walkStmt(s.Else, evs, deferred)
+		}
 	case *ast.ForStmt:
 		w.walkStmt(s.Init, evs, deferred)
 		if s.Cond != nil {
@@ -700,24 +752,81 @@ func configWritesOf(p *pkgInfo) []cfgWrite {
 				}
 				return true
 			})
-			ast.Inspect(fd.Body, func(n ast.Node) bool {
-				as, ok := n.(*ast.AssignStmt)
-				if !ok {
-					return true
+			// cfgField: e is (a slice / index / paren of) a field selector on a SecurityConfig this
+			// function did not allocate; returns base and field
+			var cfgField func(e ast.Expr) (string, string, bool)
+			cfgField = func(e ast.Expr) (string, string, bool) {
+				switch x := e.(type) {
+				case *ast.ParenExpr:
+					return cfgField(x.X)
+				case *ast.SliceExpr:
+					return cfgField(x.X)
+				case *ast.IndexExpr:
+					return cfgField(x.X)
+				case *ast.CallExpr: // conversions such as sort.StringSlice(cfg.F)
+					if len(x.Args) == 1 {
+						return cfgField(x.Args[0])
+					}
+				case *ast.SelectorExpr:
+					if namedOf(p, x.X) == "SecurityConfig" {
+						base := exprText(p.fset, x.X)
+						if !fresh[base] {
+							return base, x.Sel.Name, true
+						}
+					}
 				}
-				for _, l := range as.Lhs {
-					sel, ok := l.(*ast.SelectorExpr)
-					if !ok {
-						continue
+				return "", "", false
+			}
+			ast.Inspect(fd.Body, func(n ast.Node) bool {
+				switch as := n.(type) {
+				case *ast.AssignStmt:
+					for _, l := range as.Lhs {
+						switch lx := l.(type) {
+						case *ast.SelectorExpr:
+							if namedOf(p, lx.X) != "SecurityConfig" {
+								continue
+							}
+							base := exprText(p.fset, lx.X)
+							if fresh[base] {
+								continue
+							}
+							out = append(out, cfgWrite{fd.Name.Name, base, lx.Sel.Name})
+						case *ast.IndexExpr, *ast.StarExpr:
+							// cfg.F[i] = v : a write into the backing array / map the field refers to,
+							// which a shallow copy (x := *cfg) SHARES with the original
+							var inner ast.Expr
+							if ix, ok := lx.(*ast.IndexExpr); ok {
+								inner = ix.X
+							} else {
+								inner = lx.(*ast.StarExpr).X
+							}
+							if base, fld, ok := cfgField(inner); ok {
+								out = append(out, cfgWrite{fd.Name.Name, base, fld + "[]"})
+							}
+						}
 					}
-					if namedOf(p, sel.X) != "SecurityConfig" {
-						continue
+				case *ast.IncDecStmt:
+					if ix, ok := as.X.(*ast.IndexExpr); ok {
+						if base, fld, ok := cfgField(ix.X); ok {
+							out = append(out, cfgWrite{fd.Name.Name, base, fld + "[]"})
+						}
 					}
-					base := exprText(p.fset, sel.X)
-					if fresh[base] {
-						continue
+				case *ast.CallExpr:
+					// in-place mutators of a slice: sort.* / slices.Sort* / slices.Reverse / rand.Shuffle /
+					// copy(dst, …) / append(cfg.F[:k], …) (which writes into the shared backing array)
+					fun := exprText(p.fset, as.Fun)
+					mut := strings.HasPrefix(fun, "sort.") || strings.HasPrefix(fun, "slices.Sort") || fun == "slices.Reverse" ||
+						strings.HasSuffix(fun, ".Shuffle") || fun == "copy" || fun == "clear"
+					if fun == "append" && len(as.Args) > 0 {
+						if _, isSlice := as.Args[0].(*ast.SliceExpr); isSlice {
+							mut = true
+						}
 					}
-					out = append(out, cfgWrite{fd.Name.Name, base, sel.Sel.Name})
+					if mut && len(as.Args) > 0 {
+						if base, fld, ok := cfgField(as.Args[0]); ok {
+							out = append(out, cfgWrite{fd.Name.Name, base, fld + "[]"})
+						}
+					}
 				}
 				return true
 			})
@@ -893,18 +1002,28 @@ func genFactsLock(repo, out string) error {
 		}
 	}
 	sort.Strings(names)
-	for i, n := range names {
+	type body struct {
+		name string
+		evs  []lockEv
+	}
+	var bodies []body
+	for _, n := range names {
 		parts := strings.SplitN(n, ".", 2)
-		evs := lw.eventsOf(parts[0], parts[1])
+		bodies = append(bodies, body{n, lw.eventsOf(parts[0], parts[1])})
+		for k, alt := range lw.altMemo[n] {
+			bodies = append(bodies, body{fmt.Sprintf("%s#%d", n, k+1), alt}) // a path that returns early
+		}
+	}
+	for i, bd := range bodies {
 		var es []string
-		for _, e := range evs {
+		for _, e := range bd.evs {
 			es = append(es, fmt.Sprintf("(%s, %s, %s, %s)", leanStr(e.kind), leanStr(e.ty), leanStr(e.ob), leanStr(e.fld)))
 		}
 		sep := ","
-		if i == len(names)-1 {
+		if i == len(bodies)-1 {
 			sep = ""
 		}
-		fmt.Fprintf(&b, "  (%s, [%s])%s\n", leanStr(n), strings.Join(es, ", "), sep)
+		fmt.Fprintf(&b, "  (%s, [%s])%s\n", leanStr(bd.name), strings.Join(es, ", "), sep)
 	}
 	b.WriteString("]\n\n")
 
@@ -1017,6 +1136,33 @@ func genFactsLock(repo, out string) error {
 		}
 		fmt.Fprintf(&b, "  (%s, %s, %s)%s\n", leanStr(g.v), leanStr(g.fn), leanStr(g.kind), sep)
 	}
-	b.WriteString("]\n\nend CedarGen.FactsLock\n")
+	b.WriteString("]\n\n")
+
+	// (f) every call of a SessionCache method on the two resumption paths (function literals inside
+	// them included)
+	b.WriteString("/-- (f) calls of security.SessionCache methods inside the resumption paths: (function, method) -/\n")
+	b.WriteString("def resumeCacheCalls : List (String × String) := [\n")
+	var rc []string
+	for _, f := range sec.files {
+		for _, d := range f.Decls {
+			fd, ok := d.(*ast.FuncDecl)
+			if !ok || fd.Body == nil || (fd.Name.Name != "handleSessionResumption" && fd.Name.Name != "resumeSession") {
+				continue
+			}
+			ast.Inspect(fd.Body, func(n ast.Node) bool {
+				c, ok := n.(*ast.CallExpr)
+				if !ok {
+					return true
+				}
+				if sel, ok := c.Fun.(*ast.SelectorExpr); ok && namedOf(sec, sel.X) == "SessionCache" {
+					rc = append(rc, fmt.Sprintf("  (%s, %s)", leanStr(fd.Name.Name), leanStr(sel.Sel.Name)))
+				}
+				return true
+			})
+		}
+	}
+	sort.Strings(rc)
+	b.WriteString(strings.Join(rc, ",\n"))
+	b.WriteString("\n]\n\nend CedarGen.FactsLock\n")
 	return os.WriteFile(out, []byte(b.String()), 0o644)
 }
